@@ -219,8 +219,16 @@ class SocketModule:
     AF_INET, SOCK_DGRAM, SOL_SOCKET, SO_BROADCAST = 2, 2, 1, 6
     error = OSError
 
-    def __init__(self, sock):
+    def __init__(self, sock, addresses=()):
         self._sock = sock
+        self._addresses = list(addresses)       # local IPv4 addresses of this host
+        self.AddressFamily = self               # socket.AddressFamily.AF_INET
 
     def socket(self, *a):
         return self._sock
+
+    def gethostname(self):
+        return "host"
+
+    def getaddrinfo(self, host, port):
+        return [(self.AF_INET, 1, 6, "", (ip, 0)) for ip in self._addresses] + [(10, 1, 6, "", ("::1", 0, 0, 0))]
